@@ -212,11 +212,13 @@ ADD = {
  "C05": KT % ("C05", ": jitcount and _jitbin_array for EVERY positive bin size (the half-tick comparison was repaired in 4a0e79d; C05_odd_bin_size_refuted is about the frozen old text), total correctness"),
  "C06": " End-to-end and interpolate-slice theorems." + KT % ("C06", ": jitvaluefrom, no hypothesis, any mode, total correctness"),
  "C07": " Exact hypotheses for dropna (necessary and sufficient) and refutation witnesses for duplicates / 1 ns neighbours; complementary thresholds split the series (C07_complementary_split)." + KT % ("C07", ": jitthreshold and jitremove_nan"),
+ "C08": " Composition laws of get(start, end) (C08_get_get, C08_get_commute_idempotent, C08_get_is_restrict) are theorems and are evaluated on the public API.",
  "C19": KT % ("C19", ": _overlap_split returns exactly the model's segments; the repair's loop bound never fires in exact arithmetic"),
  "C15": " TERMINATION of all 17 kernel texts on their safety preconditions (Properties/C15b.v, total-correctness calculus Jit/Total.v with a variant per while loop).",
  "C16": KT % ("C16", ": _cross_correlogram for every bin size below 2 s (hypothesis round9_exact, sharp: C16_kernel_text_round9_refuted) and _jitcontinuous_perievent, total correctness"),
 }
 TECH_ADD = {k: "; refinement proof of the translator-regenerated kernel text against the model (wp calculus with functional invariants)" + ("; total correctness via variants" if k in ("C01", "C02", "C03", "C05", "C06", "C15", "C16") else "") for k in ADD}
+TECH_ADD["C08"] = ""      # C08 has no kernel of its own: its ADD entry is about the composition theorems only
 for k, v in ADD.items():
     CLAIMED[k]["text"] += v
     CLAIMED[k]["technique"] += TECH_ADD[k]
